@@ -317,7 +317,7 @@ def _user_programs(rng):
         alt = t.Dict[str, t.Dict[str, int]]
     elif how == "loader":
         model, recipe, good, bad = Leaf, [loader(int, int_loader)], {"n": 1}, {"n": "boom"}
-        alt = t.Dict[str, str]
+        alt = rng.choice([t.Dict[str, str], t.Dict[str, t.Any]])     # Dict[str, Any] accepts whatever the model case refused
     elif how == "validator-raising":
         def check(x):
             if x == 13:
@@ -349,6 +349,14 @@ def _user_programs(rng):
     if how in ("loader", "loader-in-list"):
         data.append(("mild", wrap({"n": "mild"} if how == "loader" else {"leaf": {"n": "mild"}, "leaves": []})))
         data.append(("poisoned+type-error", wrap({"n": "boom", "s": 5} if how == "loader" else {"leaf": {"n": "boom", "s": 5}, "leaves": [{"n": []}]})))
+    if how == "loader":
+        # several failing fields of ONE model in both orders: an unexpected error followed by a LoadError and the reverse
+        # (seeded change: the 'unexpected' mark was overwritten by the last failing field instead of latched)
+        Three = make_dataclass("Three", [("n", int), ("s", t.List[str]), ("m", int, 0)])
+        hint3 = t.Union[Three, t.Dict[str, t.Any]]
+        for label, d in (("unexpected-then-loaderror", {"n": "boom", "s": 5, "m": 1}), ("loaderror-then-unexpected", {"n": 1, "s": 5, "m": "boom"}),
+                         ("unexpected-loaderror-unexpected", {"n": "boom", "s": 5, "m": "boom"}), ("mild-then-unexpected", {"n": "mild", "s": [], "m": "boom"})):
+            data.append((f"three:{label}", ("other-hint", hint3, d)))
     return f"{how}/{name}/{exc_cls.__name__}", hint, recipe, data, exc_cls
 
 
@@ -370,7 +378,15 @@ def run_user_code_case(ctx, rng):
             return
         ctx.count("user_code_programs")
         for label, d in data:
-            outs = {dt: attempt(fns[dt], d) for dt in DEBUG_MODES}
+            if isinstance(d, tuple) and len(d) == 3 and d[0] == "other-hint":
+                try:
+                    fns3 = {dt: Retort(debug_trail=dt, strict_coercion=sc, recipe=recipe).get_loader(d[1]) for dt in DEBUG_MODES}
+                except Exception:  # noqa: BLE001
+                    continue
+                d = d[2]
+                outs = {dt: attempt(fns3[dt], d) for dt in DEBUG_MODES}
+            else:
+                outs = {dt: attempt(fns[dt], d) for dt in DEBUG_MODES}
             ctx.evaluated(("user-code", desc, label, sc), nontrivial=True)
             ctx.count("triples")
             ctx.count("user_code_triples")
